@@ -3,6 +3,8 @@ package main
 import (
 	"encoding/json"
 	"fmt"
+	"os"
+	"path/filepath"
 	"strings"
 	"time"
 
@@ -84,11 +86,12 @@ func c04Run(s *c04Scn, segName string) verdict {
 		prompts[mode(i)] = fmt.Sprintf("p%d# ", shown)
 	}
 
-	cli := &simdev.CLI{Prompts: prompts, Mode: mode(s.Start), Banner: "hello\r\n"}
+	cli := &simdev.CLI{Prompts: prompts, Mode: mode(s.Start), StartMode: mode(s.Start), Banner: "hello\r\n"}
 
 	var pipe *simdev.Pipe
 
 	stallNext := false
+	lateLine := "" // "reopen-late": the answer to this line comes too late
 	transitioned := func() {
 		// "configs-stalled": the device acts on the transition, its answer never arrives
 		if stallNext {
@@ -136,6 +139,12 @@ func c04Run(s *c04Scn, segName string) verdict {
 		}
 
 		if strings.HasPrefix(line, "show ") || strings.HasPrefix(line, "set ") {
+			if line == lateLine {
+				lateLine = ""
+
+				pipe.StallFromHere()
+			}
+
 			return "ok " + line
 		}
 
@@ -172,8 +181,16 @@ func c04Run(s *c04Scn, segName string) verdict {
 		switch op.Op {
 		case "command", "interactive":
 			lines = []string{fmt.Sprintf("show c%d", j)}
-		case "configs", "configs-at", "config":
+		case "configs", "configs-at", "config", "configs-file-at", "configs-at-unknown":
 			lines = []string{fmt.Sprintf("set a%d", j), fmt.Sprintf("set b%d", j)}
+		case "reopen-late":
+			lines = []string{fmt.Sprintf("show c%d", j)}
+
+			pipe.Lock()
+			lateLine = lines[0]
+			pipe.Unlock()
+
+			d.Channel.TimeoutOps = 250 * time.Millisecond
 		case "configs-leave":
 			lines = []string{fmt.Sprintf("set a%d", j), fmt.Sprintf("leave %d", op.Target)}
 		case "configs-stalled":
@@ -211,8 +228,31 @@ func c04Run(s *c04Scn, segName string) verdict {
 
 		var opErr error
 
+		// the per-operation level is not always the first option of the call: options of the other layers may precede it
+		atOpts := func(level string) []util.Option {
+			o := []util.Option{opoptions.WithPrivilegeLevel(level)}
+			if (s.ID+j)%2 == 0 {
+				o = append([]util.Option{opoptions.WithStopOnFailed(), opoptions.WithNoStripPrompt()}, o...)
+			}
+
+			return o
+		}
+
 		fin, pan := withWatchdog(20*time.Second, func() {
 			switch op.Op {
+			case "reopen-late":
+				_, opErr = d.SendCommand(lines[0])
+			case "configs-file-at":
+				f := filepath.Join(os.TempDir(), fmt.Sprintf("c04-%d-%d-%s.cfg", os.Getpid(), s.ID, segName))
+				if werr := os.WriteFile(f, []byte(strings.Join(lines, "\n")+"\n"), 0o600); werr != nil {
+					panic(werr)
+				}
+
+				defer os.Remove(f)
+
+				_, opErr = d.SendConfigsFromFile(f, atOpts(c04Name(s, op.Target))...)
+			case "configs-at-unknown":
+				_, opErr = d.SendConfigs(lines, atOpts("no-such-level")...)
 			case "acquire":
 				opErr = d.AcquirePriv(c04Name(s, op.Target))
 			case "acquire-unknown":
@@ -226,7 +266,7 @@ func c04Run(s *c04Scn, segName string) verdict {
 			case "config":
 				_, opErr = d.SendConfig(strings.Join(lines, "\n"))
 			case "configs-at":
-				_, opErr = d.SendConfigs(lines, opoptions.WithPrivilegeLevel(c04Name(s, op.Target)))
+				_, opErr = d.SendConfigs(lines, atOpts(c04Name(s, op.Target))...)
 			}
 		})
 
@@ -237,6 +277,27 @@ func c04Run(s *c04Scn, segName string) verdict {
 			time.Sleep(2 * time.Millisecond)
 
 			d.Channel.TimeoutOps = 3 * time.Second
+		}
+
+		if op.Op == "reopen-late" {
+			// the answer arrives after all and stays unread; then the usual reaction to a timeout: close, open again
+			pipe.SetStall(-1)
+			pipe.WaitDrained(time.Second)
+			time.Sleep(2 * time.Millisecond)
+
+			d.Channel.TimeoutOps = 3 * time.Second
+
+			var rerr error
+
+			finR, panR := withWatchdog(8*time.Second, func() {
+				_ = d.Close()
+				rerr = d.Open()
+			})
+			if !finR || panR != nil || rerr != nil {
+				v.OK, v.Sig, v.Detail = false, "TOOL", fmt.Sprintf("close and open again: fin=%v panic=%v err=%v", finR, panR, rerr)
+
+				return v
+			}
 		}
 
 		sig := fmt.Sprintf("C04:%s", op.Op)
